@@ -71,7 +71,7 @@ pub struct C16;
 #[derive(Clone, Debug)]
 struct ClientOp {
     stream: u8,
-    mode: u8, // 0 optimistic (read version, expect it), 1 Any, 2 Empty, 3 stale exact (version - 1)
+    mode: u8, // 0 optimistic (read version, expect it), 1 Any, 2 Empty, 3 stale exact (version - 1), 4 optimistic on the partition sequence (stream: Any), 5 partition sequence Empty
     second_stream: Option<u8>,
     payload: usize,
 }
@@ -94,7 +94,7 @@ impl Check for C16 {
         "exploration"
     }
     fn rule(&self) -> String {
-        "case = configuration (1-4 buckets, 1-4 writer threads, partitions, sync settings) + 4-16 client tasks on an 8-thread runtime, each with 3-12 generated operations over 4 streams on 2 partition keys: optimistic (read the version, then append expecting it), Any, Empty, stale Exact, optionally with a second event on another stream of the same key. Every invocation/response is stamped with a shared logical clock. Oracle (sound for every schedule): per partition the successes sorted by assigned sequence are gapless from 0 and replay in the reference model (each expectation holds at its turn, assigned sequences/versions equal the model's); a WrongExpectedVersion failure is only a violation when the log proves the stream sat at exactly the expected version for the whole invocation interval; the final database passes the full audit against the replayed model. Non-trivial: two operations with the same exact/empty expectation on one stream whose invocation intervals overlap, with exactly one winner.".into()
+        "case = configuration (1-4 buckets, 1-4 writer threads, partitions, sync settings) + 4-16 client tasks on an 8-thread runtime, each with 3-12 generated operations over 4 streams on 2 partition keys: optimistic (read the version, then append expecting it), Any, Empty, stale Exact, optimistic on the *partition sequence* (read it, expect it; stream expectation Any) and partition sequence Empty, optionally with a second event on another stream of the same key. Every invocation/response is stamped with a shared logical clock. Oracle (sound for every schedule): per partition the successes sorted by assigned sequence are gapless from 0 and replay in the reference model (each expectation holds at its turn, assigned sequences/versions equal the model's); a WrongExpectedVersion failure is only a violation when the log proves the stream sat at exactly the expected version for the whole invocation interval; the final database passes the full audit against the replayed model. Non-trivial: two operations with the same exact/empty expectation on one stream whose invocation intervals overlap, with exactly one winner.".into()
     }
     fn assumptions(&self) -> Vec<String> {
         vec!["real thread interleavings are sampled by the OS scheduler; the oracle does not depend on which one occurred".into(), "every stream is written with one partition key (no key-mismatch rejections are generated)".into()]
@@ -115,7 +115,7 @@ impl Check for C16 {
         let mut per_client: Vec<Vec<ClientOp>> = vec![Vec::new(); n_clients];
         let mut i = 0;
         while t.next_slot() {
-            let op = ClientOp { stream: t.below(4) as u8, mode: [0u8, 0, 0, 1, 2, 3][t.usize_below(6)], second_stream: if t.chance(1, 5) { Some(t.below(4) as u8) } else { None }, payload: *t.pick(&[20usize, 200, 3000, 20000]) };
+            let op = ClientOp { stream: t.below(4) as u8, mode: [0u8, 0, 0, 1, 2, 3, 4, 4, 5][t.usize_below(9)], second_stream: if t.chance(1, 5) { Some(t.below(4) as u8) } else { None }, payload: *t.pick(&[20usize, 200, 3000, 20000]) };
             per_client[i % n_clients].push(op);
             i += 1;
         }
@@ -146,9 +146,19 @@ impl Check for C16 {
                         let sid = stream_name(op.stream);
                         let pid = key_hash(key_idx as u16, cfg.partitions) % cfg.partitions;
                         let cur = db.get_stream_version(pid, &StreamId::new(sid.clone()).unwrap()).await.ok().flatten().map(|v| v.version);
+                        // expectations on the partition sequence race the same way (and pass the
+                        // stream-version validation, so they reach the later sequence check)
+                        let expect_seq = match op.mode {
+                            4 => match db.get_partition_sequence(pid).await.ok().flatten() {
+                                Some(s) => ExpectedVersion::Exact(s.sequence),
+                                None => ExpectedVersion::Empty,
+                            },
+                            5 => ExpectedVersion::Empty,
+                            _ => ExpectedVersion::Any,
+                        };
                         let expect = match op.mode {
                             0 => cur.map(ExpectedVersion::Exact).unwrap_or(ExpectedVersion::Empty),
-                            1 => ExpectedVersion::Any,
+                            1 | 4 | 5 => ExpectedVersion::Any,
                             2 => ExpectedVersion::Empty,
                             _ => match cur {
                                 Some(v) if v > 0 => ExpectedVersion::Exact(v - 1),
@@ -162,7 +172,8 @@ impl Check for C16 {
                                 events.push((stream_name(s2), ExpectedVersion::Any, 30, 1, GOOD_TS));
                             }
                         }
-                        let tx = mk_tx(&cfg, key_idx, events, salt);
+                        let mut tx = mk_tx(&cfg, key_idx, events, salt);
+                        tx.expected_seq = expect_seq;
                         let t_inv = clock.fetch_add(1, Ordering::SeqCst);
                         let res = db.append_events(to_transaction(&tx)).await;
                         let t_res = clock.fetch_add(1, Ordering::SeqCst);
@@ -230,6 +241,11 @@ impl Check for C16 {
             for l in all_logs.iter().filter(|l| l.err.is_some()) {
                 let e = l.err.as_ref().unwrap();
                 let is_version = e.contains("current stream version");
+                if e.contains("current partition sequence") && !matches!(l.tx.expected_seq, ExpectedVersion::Any) {
+                    // a lost race on the partition sequence; whether it was justified is judged
+                    // through the successes (sequence reuse / expectation at its turn)
+                    continue;
+                }
                 if !is_version {
                     final_fail.push(("failure/unexpected-error".into(), format!("client {} got an error that no generated input explains: {e}", l.client)));
                     break;
@@ -308,7 +324,7 @@ impl Check for C20 {
         "exploration"
     }
     fn rule(&self) -> String {
-        "case = sync configuration (interval 0/1/5/20/50 ms, idle interval >= it up to 100 ms, max batch 1/50/1000, min sync bytes 1/4096/huge, 1-2 buckets, segment 128 KiB) + 1-16 client tasks each issuing 2-10 generated appends: small, large (forcing rollovers), multi-event, multi-event failing behind the first event (timestamp >= 2^63), wrong expected version. Oracle: every append future resolves (Ok or Err) within B = 20*max(interval, idle) + 10 s; a miss is confirmed by waiting a further B with no new traffic, and only a future that is still pending then is a violation (a lost wake-up is permanent, a load spike is not). Non-trivial: at least two clients in flight across a rollover with a non-zero sync interval (waiters exist while the segment is switched).".into()
+        "case = sync configuration (interval 0/1/5/20/50 ms, idle interval >= it up to 100 ms, max batch 1/50/1000, min sync bytes 1/4096/huge, 1-2 buckets, segment 128 KiB) + 1-16 client tasks each issuing 2-10 generated appends: small, large (forcing rollovers), multi-event, multi-event failing behind the first event (timestamp >= 2^63), wrong expected version. Oracle: every append future resolves (Ok or Err) within B = 20*max(interval, idle) + 10 s; a miss is confirmed by waiting a further B with no new traffic, and only a future that is still pending then is a violation (a lost wake-up is permanent, a load spike is not). One case in five is a burst: 64 buckets on 64 writer threads (request queue of 16 per writer) and 48-96 clients appending to one bucket at once, followed by a quiet tail of 8 small appends. Non-trivial: a burst, or at least two clients in flight across a rollover with a non-zero sync interval (waiters exist while the segment is switched).".into()
     }
     fn assumptions(&self) -> Vec<String> {
         vec!["healthy disk (tmpfs); the bound is relative to the configured intervals, absurd intervals are outside the domain".into(), "a worker that exceeds its watchdog is reported as inconclusive, not as a violation".into()]
@@ -337,6 +353,18 @@ impl Check for C20 {
         };
         let n_clients = 1 + t.usize_below(16);
         let salt = t.raw() as u64;
+        // one case in five (by a hash of the header slot: older replays keep their meaning) is a
+        // burst: 64 buckets on 64 writer threads, which makes each writer's request queue as short
+        // as it gets (16), and 48-96 clients appending to one bucket at once, so that the queue is
+        // full when the periodic flush poll arrives; a quiet tail of small appends follows
+        let header_hash = vlib::fnv1a(&t.slots().first().map(|s| s.iter().flat_map(|w| w.to_le_bytes()).collect::<Vec<u8>>()).unwrap_or_default());
+        let burst = header_hash % 5 == 0;
+        let (cfg, interval, idle, n_clients) = if burst {
+            let interval = interval.max(1);
+            (DbCfg { buckets: 64, writer_threads: 64, partitions: 64, sync_interval_ms: interval, sync_idle_ms: idle.max(interval), ..cfg }, interval, idle.max(interval), 48 + ((header_hash >> 8) % 49) as usize)
+        } else {
+            (cfg, interval, idle, n_clients)
+        };
         #[derive(Clone, Debug)]
         struct A {
             kind: u8, // 0 small, 1 large, 2 multi, 3 multi failing, 4 wrong version
@@ -347,6 +375,14 @@ impl Check for C20 {
         while t.next_slot() {
             per_client[i % n_clients].push(A { kind: [0u8, 0, 0, 1, 1, 2, 3, 4][t.usize_below(8)], stream: t.below(4) as u8 });
             i += 1;
+        }
+        if burst {
+            // everybody hits the same key (one bucket, one writer thread) with small appends
+            for (ci, ops) in per_client.iter_mut().enumerate() {
+                ops.clear();
+                ops.push(A { kind: 0, stream: (ci % 2) as u8 * 2 });
+                ops.push(A { kind: 0, stream: (ci % 2) as u8 * 2 });
+            }
         }
         let bound = Duration::from_millis(20 * interval.max(idle) + 10_000);
         let scratch = Scratch::new("c20");
@@ -426,6 +462,23 @@ impl Check for C20 {
             for h in handles {
                 let _ = h.await;
             }
+            if burst && stuck.lock().unwrap().is_empty() {
+                // the quiet tail: small appends that are not synced inline depend on the periodic poll
+                for oi in 0..8u32 {
+                    tokio::time::sleep(Duration::from_millis(interval * 2 + 3)).await;
+                    let tx = mk_tx(&cfg2, 0, vec![(stream_name(0), ExpectedVersion::Any, 20, 1u8, GOOD_TS)], salt ^ 0x7A11);
+                    let fut = db.append_events(to_transaction(&tx));
+                    tokio::pin!(fut);
+                    let done = match tokio::time::timeout(bound, &mut fut).await {
+                        Ok(_) => true,
+                        Err(_) => tokio::time::timeout(bound, &mut fut).await.is_ok(),
+                    };
+                    if !done {
+                        stuck.lock().unwrap().push(format!("small append {oi} of the quiet tail after a burst of {n_clients} concurrent clients on one writer thread did not complete within 2 x {} ms", bound.as_millis()));
+                        break;
+                    }
+                }
+            }
         });
         let stuck_list = stuck.lock().unwrap().clone();
         if stuck_list.is_empty() {
@@ -443,7 +496,10 @@ impl Check for C20 {
         if interval > 0 {
             out.class("timed-sync");
         }
-        out.nontrivial = rollover_with_waiters.load(Ordering::Relaxed) && interval > 0 && n_clients >= 2;
+        if burst {
+            out.class("burst-over-writer-queue");
+        }
+        out.nontrivial = burst || rollover_with_waiters.load(Ordering::Relaxed) && interval > 0 && n_clients >= 2;
         if let Some(first) = stuck_list.first() {
             out.fail("C20/append-never-completes", format!("{first} (sync interval {interval} ms, idle {idle} ms, max batch {}, min sync bytes {}, {} clients); {} append(s) stuck in total", cfg.max_batch, cfg.min_sync_bytes, n_clients, stuck_list.len()));
         }
